@@ -369,15 +369,18 @@ def use_translation(prog, chk):
     if not tr or set(gets) != {"x", "y"}:
         chk.anchor_missing("A13.use-translation", f"get_clipped_bbox: translated() call or get_attr(\"x\"/\"y\") not found (found {sorted(gets)}, {len(tr)} translated calls)")
         return
+    # sanity of the decider: with both absent the translation must be unreachable (otherwise the rule decides nothing)
+    both = {bb: 0 for k in gets for bb in gets[k]}
+    if R.may_reach(b, tr, R.option_assumption(b, both)):
+        chk.undecided("A13.use-translation", "get_clipped_bbox", b.where(), "the presence tests on x / y are not in a form the rule understands (the translation looks reachable with both absent)")
+        return
+    chk.ok("A13.use-translation", "get_clipped_bbox:decider-sanity", b.where(), "decider sanity: with neither x nor y the translation is not reached")
     for absent in ("x", "y"):
         assume = {bb: 0 for bb in gets[absent]}
         other = "y" if absent == "x" else "x"
         assume.update({bb: 1 for bb in gets[other]})
         ok = R.may_reach(b, tr, R.option_assumption(b, assume))
         chk.ob(ok, "A13.use-translation", f"get_clipped_bbox:only-{other}", b.where(), f"a <use>/<reuse> with `{other}` but no `{absent}` still has its bounding box translated", f"with `{absent}` absent the translation of a <use>/<reuse> bounding box is unreachable: `<use href=.. {other}=..>` contributes its target's untranslated box to the extent")
-    # sanity of the decider: with both absent the translation must be unreachable (otherwise the rule decides nothing)
-    both = {bb: 0 for k in gets for bb in gets[k]}
-    chk.ob(not R.may_reach(b, tr, R.option_assumption(b, both)), "A13.use-translation", "get_clipped_bbox:decider-sanity", b.where(), "decider sanity: with neither x nor y the translation is not reached", "the presence tests on x / y are not understood by the rule (translation reachable with both absent): rule cannot decide")
 
 
 def clip_result_stored_whole(prog, chk):
